@@ -72,6 +72,33 @@ PROPS = {
         "min": {"decoder_comparisons": 8000, "inputs_with_objects": 500, "inputs_with_timing_points": 500,
                 "inputs_with_colours": 100, "inputs_with_events": 100},
     },
+    "C08": {
+        "level": "exploration",
+        "rule": ("inputs: every bundled file (windowed) and generated files in all four encodings, plus all byte strings up to length 4/5 over a "
+                 "BOM-ish alphabet; deliveries: from_str, from_path, BufReader capacities 1..16, every fixed chunk size 1..64 through a reader "
+                 "that exposes exactly the scheduled chunk, 20-60 random variable schedules per input, half of them with Interrupted results "
+                 "injected before chosen fill_buf/read calls. Oracle: Recorder trace (every delivery) and Beatmap (a subset) equal those of "
+                 "from_bytes and no delivery errors. One evaluation = one input with all its deliveries; byte_schedule_pairs counts the pairs. "
+                 "non-trivial = at least one dispatched line, or a file of <= 6 bytes (BOM sniffing); distinct by FNV-64 of the bytes"),
+        "assumptions": COMMON_ASSUMPTIONS + ["schedules are deterministic inputs (chunk lists and interrupt placements), not thread interleavings; the crate has no threads"],
+        "quick": [leg("main", "rel", 16, 300, timeout=600, max_secs=150)],
+        "thorough": [leg("main", "rel", 16, 3000, timeout=3600, max_secs=1500)],
+        "min": {"byte_schedule_pairs": 100000, "interrupts_fired": 2000, "from_path_compared": 50, "from_str_compared": 200,
+                "class_tiny-bomish": 5000, "class_bundled": 100},
+    },
+    "C09": {
+        "level": "fault_enumeration",
+        "rule": ("reader faults: every byte offset 0..=len (quick: up to 700 sampled offsets, rotating kinds) of the small bundled files, 256 sampled "
+                 "offsets of the large ones (thorough) and of generated files in four encodings x error kinds {Other, UnexpectedEof, PermissionDenied, "
+                 "TimedOut, WouldBlock} x reader chunk sizes {1,7,64,8192}; writer faults: every (sampled) output offset x {error, Ok(0)} + flush-only "
+                 "failure + short-write/Interrupted schedules. A fault counts only if the injecting reader/writer actually fired. One evaluation = one "
+                 "fired fault; distinct = (file, fault ordinal)"),
+        "assumptions": COMMON_ASSUMPTIONS + ["the injected error carries a marker payload so the oracle can tell that exactly this error was returned"],
+        "quick": [leg("main", "rel", 16, 60, timeout=600, max_secs=150)],
+        "thorough": [leg("main", "rel", 16, 400, timeout=3600, max_secs=1500)],
+        "min": {"faults_injected": 20000, "reader_fault_Other": 500, "reader_fault_WouldBlock": 500, "writer_fault_Error": 1000,
+                "writer_fault_Zero": 1000, "writer_fault_Flush": 20, "short_write_schedules": 100, "interrupts_fired": 200},
+    },
     "C10": {
         "level": "exploration",
         "rule": ("(1) generated and bundled texts transcoded to UTF-8+BOM/UTF-16LE/UTF-16BE must give the UTF-8 trace and Beatmap; "
@@ -95,6 +122,18 @@ PROPS = {
 }
 
 MANIFEST_TEXT = {
+    "C08": {
+        "technique": "runtime monitoring: differential oracle over reader delivery schedules (chunk lists, BufReader capacities, injected Interrupted), exhaustive over fixed chunk sizes and tiny BOM-like files",
+        "level_text": ("Each input is decoded through ~100-150 different deliveries and every result must equal from_bytes; all fixed chunk sizes 1..64 and "
+                       "BufReader capacities 1..16 are always covered, variable schedules and interrupt placements are sampled."),
+        "level_note": "Sampled over inputs and variable schedules; exhaustive over fixed chunk sizes/capacities per input and over tiny BOM-like files.",
+    },
+    "C09": {
+        "technique": "runtime monitoring with fault injection: failing readers/writers at enumerated byte offsets, marker-carrying errors, fired-fault counters",
+        "level_text": ("Faults are enumerated over byte offsets of real files (all offsets of the small bundled files in thorough) for five error kinds on read and "
+                       "error / zero-length / flush / short-write behaviours on write; each fired fault must surface as exactly the injected error."),
+        "level_note": "Enumeration is complete per small bundled file in thorough, sampled for large and generated files and in quick.",
+    },
     "C10": {
         "technique": "runtime monitoring: cross-encoding differential + reference-model oracle (std lossy conversion per line) over every Unicode scalar and random damage; invalid-byte subset under Miri and AddressSanitizer",
         "level_text": ("Each text is decoded in four encodings and must give identical dispatch traces and maps; every scalar value is pushed through every encoding "
